@@ -10,7 +10,8 @@ MODULE = "GoNfsd.Props.C10"
 
 
 def run(ctx):
-    ok_go, ok_drv = seqlib.build_and_prove(ctx, MODULE)
+    ok_go, ok_drv = seqlib.build_and_prove(ctx, MODULE, extra_parts=["skeleton"])
+    seqlib.report_journal_objects(ctx)
     if ok_go:
         args = ["-seqs", "30", "-ops", "400", "-c10", "40"] if ctx.tier == "thorough" else ["-seqs", "6", "-ops", "250", "-c10", "50"]
         lines, tr = seqlib.run_seq(ctx, args)
